@@ -219,6 +219,7 @@ def gen_program(rng, strict_pct=15):
         "sseq": rng.chance(30),
         "sfl": rng.chance(30),
         "depth": 30 if not rng.chance(10) else rng.range(5, 9),
+        "async": rng.chance(30),
     }
     return prog
 
